@@ -3,6 +3,7 @@ package checks
 import (
 	"fmt"
 	"math"
+	"slices"
 	"testing"
 
 	"pgregory.net/rapid"
@@ -269,23 +270,33 @@ func oracleC04(c SnapCase) (o report.Outcome) {
 					if li.maxVisits >= 3 {
 						tags = append(tags, "maxVisits>=3")
 					}
-					// root cause marker of known finding F12: the location lies in a hole that was attached to a polygon whose
-					// shell is cancelled by an identical hole (a zero-area island kept by dedupeInnersOuters), while an enclosing
-					// polygon covers it
+					// root cause marker of known finding F12: a returned polygon whose shell is cancelled (wholly or along all of the hole's
+					// vertices) by a hole that runs along it - both halves of a ring that collapsed onto a loop, attached to each other by
+					// matchInnersToPolygons (which decides by vertex containment and takes the smallest shell that touches all vertices)
+					// instead of the hole going to the polygon around them - and the location lies inside that loop,
+					// is not covered by the input, but is covered by the output: what should have been cut out of the enclosing polygon
+					// (the loop, and through it the holes of the islands inside) was not
 					for _, rs := range outRings {
-						if len(rs) < 3 || len(rs[0]) < 3 || kernel.PointInRing(p, rs[0]) < 0 {
+						if len(rs) < 2 || len(rs[0]) < 3 || kernel.PointInRing(p, rs[0]) < 0 {
 							continue
 						}
-						cancelled, inOtherHole := false, false
+						cancelled := false
 						for _, h := range rs[1:] {
-							if cyclicEqual(kernel.Reversed(h), rs[0]) {
+							// the hole runs along its own shell: every vertex of it lies on the shell's boundary (identical rings included)
+							onShell := len(h) >= 3
+							for _, v := range h {
+								if kernel.PointInRing(v, rs[0]) != 0 {
+									onShell = false
+									break
+								}
+							}
+							if onShell {
 								cancelled = true
-							} else if len(h) >= 3 && kernel.PointInRing(p, h) > 0 {
-								inOtherHole = true
 							}
 						}
-						if cancelled && inOtherHole && !inIn && inOut {
+						if cancelled && !inIn && inOut {
 							tags = append(tags, "hole-in-cancelled-shell")
+							break
 						}
 					}
 					o.Failf(tags, "tile matrix %d: location (%v, %v) is farther than one pixel from the input boundary and inside the input: %v, but inside the output: %v; routed boundary %v; returned %v",
@@ -313,12 +324,18 @@ func TestC04(t *testing.T) { report.Run(t, specC04, genC04, oracleC04) }
 // (holes in islands in holes, gaps that close) at the deepest addressable tile matrices of the built-in sets, where a pixel
 // measures millimetres and ordinates reach 2e7. Finding F16 (ring areas that are pure rounding) lives here.
 var specC04Far = report.Spec{Property: "C04", Check: "C04Far",
-	Rule: "nested shapes (recursive C-shaped holes with closing gaps, holes in the islands, shuffled hole order) and annuli on the built-in sets NetherlandsRDNewQuad, WebMercatorQuad, EuropeanETRS89_LAEAQuad, UPSArcticWGS84Quad, " +
-		"first requested tile matrix among the four deepest addressable ones, placed anywhere in the extent (corners, root split, far side); oracle and non-trivial rule of C04. Distinct by case content.",
+	Rule: "nested shapes (recursive C-shaped holes with closing gaps, holes in the islands, shuffled hole order), pinched shapes (two convex blobs with sloping edges joined by a neck of 0.5-2 pixels, 1-3 small holes hugging the boundary of a blob) and annuli on the built-in sets NetherlandsRDNewQuad, WebMercatorQuad, EuropeanETRS89_LAEAQuad, UPSArcticWGS84Quad, NZTM2000Quad, " +
+		"first requested tile matrix among the four deepest addressable ones, placed anywhere in the extent (corners, root split, far side), one case in six pushed into the strip between the last addressable pixel and the border of the extent (refused by the tool today: counted out of scope when it panics, judged when it returns); oracle and non-trivial rule of C04. Distinct by case content.",
 	Assumptions: specC04.Assumptions}
 
-func genC04Far(t *rapid.T) SnapCase {
-	grids := []gen.GridSpec{gen.WebMercator, gen.WebMercator, gen.RD, {Kind: "builtin", Name: "EuropeanETRS89_LAEAQuad"}, {Kind: "builtin", Name: "UPSArcticWGS84Quad"}}
+func genC04Far(t *rapid.T) SnapCase { return drawFarCase(t, false) }
+
+// drawFarCase: shapes whose result depends on hole matching and ring areas (nested, pinched, annulus; collapse-prone templates
+// when asked) at the deepest addressable tile matrices of the built-in quad sets. One case in six is pushed against the far end of
+// the extent so that its outermost vertices lie in the strip between the last addressable pixel and the border (sets whose
+// extent does not divide evenly into pixels).
+func drawFarCase(t *rapid.T, collapse bool) SnapCase {
+	grids := []gen.GridSpec{gen.WebMercator, gen.WebMercator, gen.RD, {Kind: "builtin", Name: "EuropeanETRS89_LAEAQuad"}, {Kind: "builtin", Name: "UPSArcticWGS84Quad"}, {Kind: "builtin", Name: "NZTM2000Quad"}}
 	c := SnapCase{Grid: rapid.SampledFrom(grids).Draw(t, "grid")}
 	g := c.Grid.MustBuild()
 	top := min(g.MaxID(), maxAddressableID(g))
@@ -330,17 +347,54 @@ func genC04Far(t *rapid.T) SnapCase {
 	}
 	c.Flags = gen.DrawFlags(t)
 	c.Flags.Ignore = false
-	c.Q = rapid.SampledFrom([]int64{4, 4, 3, 7}).Draw(t, "q")
 	var rings [][]P
-	if rapid.IntRange(0, 4).Draw(t, "kind") == 0 {
-		c.Shape, rings = "annulus", gen.Annulus(t, c.Q)
+	if collapse && rapid.Bool().Draw(t, "template") {
+		rings, c.Q, c.Shape = drawShape(t, validOpts{maxHoles: 2, collapseBias: true, maxVerts: 24})
 	} else {
-		c.Shape, rings = "nested", gen.Nested(t, c.Q)
+		c.Q = rapid.SampledFrom([]int64{4, 4, 3, 7}).Draw(t, "q")
+		switch rapid.IntRange(0, 5).Draw(t, "kind") {
+		case 0:
+			c.Shape, rings = "annulus", gen.Annulus(t, c.Q)
+		case 1, 2:
+			c.Shape, rings = "pinched", gen.Pinched(t, c.Q)
+		default:
+			c.Shape, rings = "nested", gen.Nested(t, c.Q)
+		}
 	}
-	if poly, anchor, ok := placeShape(t, g, c.IDs[:1], rings, c.Q); ok {
-		c.Poly, c.Anchor = poly, anchor
-	} else {
+	poly, anchor, ok := placeShape(t, g, c.IDs[:1], rings, c.Q)
+	if !ok {
 		c.Shape += "/unplaced"
+		return c
+	}
+	c.Poly, c.Anchor = poly, anchor
+	if rapid.IntRange(0, 5).Draw(t, "strip") == 2 {
+		deepest := g.LevelOf(slices.Max(c.IDs))
+		w := g.Res(deepest) << deepest // what the tool can address
+		remX, remY := g.Span-w, g.SpanY-w
+		if remX > 0 && remY > 0 {
+			var maxX, maxY int64 = math.MinInt64, math.MinInt64
+			for _, r := range c.Poly {
+				for _, v := range r {
+					maxX, maxY = max(maxX, kernel.ToFixed(v[0])), max(maxY, kernel.ToFixed(v[1]))
+				}
+			}
+			var dx, dy int64
+			ax := rapid.IntRange(0, 2).Draw(t, "stripAxis")
+			if ax != 1 {
+				dx = g.MinX + w + rapid.Int64Range(0, remX-1).Draw(t, "stripX") - maxX
+			}
+			if ax != 0 {
+				dy = g.MinY + w + rapid.Int64Range(0, remY-1).Draw(t, "stripY") - maxY
+			}
+			for _, r := range c.Poly {
+				for i, v := range r {
+					x, _ := gen.ExactFloat(kernel.ToFixed(v[0]) + dx)
+					y, _ := gen.ExactFloat(kernel.ToFixed(v[1]) + dy)
+					r[i] = [2]float64{x, y}
+				}
+			}
+			c.Anchor += "+strip"
+		}
 	}
 	c.Extra = map[string]int64{"locOff": rapid.SampledFrom([]int64{1, 3, 5, 7}).Draw(t, "locOffX"), "locOffY": rapid.SampledFrom([]int64{1, 3, 5, 7}).Draw(t, "locOffY")}
 	return c
